@@ -19,12 +19,21 @@ type c15Case struct {
 	Expr  *ref.Expr `json:"expr"`
 	Type  string    `json:"type"` // B N T
 	Style ref.Style `json:"style"`
+	// Fields: the select list of a type-B case whose expression refers to named fields ("" = *)
+	Fields string `json:"fields,omitempty"`
+}
+
+func (c *c15Case) sel() string {
+	if c.Fields != "" {
+		return c.Fields
+	}
+	return "*"
 }
 
 func (c *c15Case) query() string {
 	e := c.Expr.RenderStyle(c.Style)
 	if c.Type == "B" {
-		return "select * where " + e
+		return "select " + c.sel() + " where " + e
 	}
 	return "select " + e + " where true"
 }
@@ -354,8 +363,9 @@ func (g *c15Gen) treesNoUnary(t byte, n int) []*ref.Expr {
 var c15TreesCache = map[string][]c15Tree{}
 
 type c15Tree struct {
-	e *ref.Expr
-	t byte
+	e      *ref.Expr
+	t      byte
+	fields string
 }
 
 func c15Trees(t core.Tier) []c15Tree {
@@ -383,7 +393,7 @@ func c15Trees(t core.Tier) []c15Tree {
 				k := canonTree(e)
 				if !seen[k] {
 					seen[k] = true
-					out = append(out, c15Tree{e, ty})
+					out = append(out, c15Tree{e: e, t: ty})
 				}
 			}
 		}
@@ -398,8 +408,21 @@ func c15Trees(t core.Tier) []c15Tree {
 			k := canonTree(e)
 			if !seen[k] {
 				seen[k] = true
-				out = append(out, c15Tree{e, 'B'})
+				out = append(out, c15Tree{e: e, t: 'B'})
 			}
+		}
+	}
+	// references to named select fields: the printed form must name the same
+	// field again, whatever the name looks like (reserved word, upper case,
+	// digits, blanks, operator characters)
+	for _, name := range []string{"v", "my val", "key", "value", "Val", "VALUE", "1", "in", "a-b", "select", "x.y", "true", "limit", "a b c", "ALongFieldName"} {
+		nm := func() *ref.Expr { return ref.Name(name) }
+		for _, e := range []*ref.Expr{
+			ref.Bin("=", nm(), ref.S("x")), ref.Bin("=", ref.Call("upper", nm()), ref.S("X")), ref.Bin("=", ref.Bin("+", nm(), ref.S("a")), ref.S("xa")),
+			ref.In(nm(), ref.S("x"), ref.S("y")), ref.Btw(nm(), ref.S("a"), ref.S("z")), ref.Not(ref.Bin("^=", nm(), ref.S("x"))),
+			ref.Bin("&", ref.Bin("!=", ref.S("y"), nm()), ref.Bin("=", ref.Key(), ref.S("k"))),
+		} {
+			out = append(out, c15Tree{e, 'B', "key, value as " + ref.QuoteName(name)})
 		}
 	}
 	c15TreesCache[string(t)] = out
@@ -423,7 +446,7 @@ func (c15) RunUnit(t core.Tier, u int, r *core.Reporter) {
 		full := tr.e.RenderStyle(ref.Style{Full: true})
 		seen := map[string]bool{}
 		for _, st := range styles {
-			c := c15Case{Expr: tr.e, Type: string(tr.t), Style: st}
+			c := c15Case{Expr: tr.e, Type: string(tr.t), Style: st, Fields: tr.fields}
 			q := c.query()
 			if seen[q] {
 				continue
@@ -470,7 +493,7 @@ func c15Judge(c *c15Case) (fails []core.Failure, status string, evals int) {
 	status = "ok"
 	// print / re-parse fix-point
 	printed := e.String()
-	q2 := "select * where " + printed
+	q2 := "select " + c.sel() + " where " + printed
 	if c.Type != "B" {
 		q2 = "select " + printed + " where true"
 	}
@@ -518,7 +541,7 @@ func c15Judge(c *c15Case) (fails []core.Failure, status string, evals int) {
 						// numbers, a folded zero divisor): not expressible, not judged
 						return fails, "ok(explain-not-expressible)", evals
 					}
-					e3, err3, pan3 := parseExprOf("select * where "+shown, "B")
+					e3, err3, pan3 := parseExprOf("select "+c.sel()+" where "+shown, "B")
 					evals++
 					switch {
 					case pan3 != "":
